@@ -770,7 +770,7 @@ func exhaustiveSubspaces(prop, tier string) []string {
 		if th {
 			return []string{"every index 0..2^h-1 signed/validated plus the refused attempt at 2^h: stub leaves h in {4,6,...,20} x 3 hash functions and h = 22 with one hash function (by signing up to h = 14, by unit SetIndex steps above); real leaves h in {4,6,8,10} x 3 hash functions", "every single forward jump i -> j (0 <= i <= j < 2^h), path checked at j..j+3 and at the last index: stub leaves h in {4,6,8}"}
 		}
-		return []string{"every index 0..2^h-1 signed/validated plus the refused attempt at 2^h: stub leaves h in {4,6,8,10,12,14} x 3 hash functions; real leaves h in {4,6,8} x 3 hash functions", "every single forward jump i -> j (0 <= i <= j < 2^h), path checked at j..j+3 and at the last index: stub leaves h in {4,6}"}
+		return []string{"every index 0..2^h-1 signed/validated plus the refused attempt at 2^h: stub leaves h in {4,6,8,10,12,14} x 3 hash functions; real leaves h in {4,6,8} x 3 hash functions and h = 10 with one hash function", "every single forward jump i -> j (0 <= i <= j < 2^h), path checked at j..j+3 and at the last index: stub leaves h in {4,6}"}
 	case "C02":
 		return []string{"every refusal class (SetIndex to 2^h, 2^h+1, 2^31, 2^32-2, 2^32-1, random >= 2^h, idx-1, 0, random < idx; Sign after exhaustion) tried before the last leaf, after exhaustion and mid-life with a signature after each: stub leaves h in {4,6,...,16}, real leaves h in {4,6}, 3 hash functions"}
 	case "C08":
